@@ -299,6 +299,16 @@ def clauses(test, pol: bool, atoms: Atoms, limit: int = 64) -> frozenset:
             if len(out) > limit:
                 return frozenset([frozenset([atoms.lit(test, pol)])])
         return frozenset(out)
+    if isinstance(test, ast.Compare) and len(test.ops) == 1 and isinstance(test.ops[0], (ast.Is, ast.IsNot, ast.Eq, ast.NotEq)):
+        left, right = test.left, test.comparators[0]
+        if isinstance(left, ast.IfExp):
+            # (a if c else b) is X  ==  (a is X) if c else (b is X): a value decided in branches, compared afterwards
+            arms = [ast.copy_location(ast.Compare(left=v, ops=test.ops, comparators=test.comparators), test) for v in (left.body, left.orelse)]
+            return clauses(ast.copy_location(ast.IfExp(test=left.test, body=arms[0], orelse=arms[1]), test), pol, atoms, limit)
+        if isinstance(left, ast.Constant) and isinstance(right, ast.Constant) and (left.value is None or right.value is None):
+            same = left.value is right.value
+            truth = same if isinstance(test.ops[0], (ast.Is, ast.Eq)) else not same
+            return frozenset() if truth == pol else frozenset([frozenset()])
     if isinstance(test, ast.Compare) and len(test.ops) == 1 and type(test.ops[0]) in _POSITIVE:
         pos = ast.copy_location(ast.Compare(left=test.left, ops=[_POSITIVE[type(test.ops[0])]()], comparators=test.comparators), test)
         return frozenset([frozenset([atoms.lit(pos, not pol)])])
